@@ -1,5 +1,629 @@
+// Parser-machine explorer (DESIGN.md §3/C01 (1), §3/C16 phase A): explicit-state
+// breadth-first search over token strings.  A state is the configuration of
+// bison automaton + lexer + builder + document after a token prefix; a
+// transition appends one token of the alphabet.  Objects cannot be copied, so a
+// state *is* the prefix that reaches it, replayed on fresh objects through the
+// real entry point; the digest (taken at the "Reading a token" observation
+// point that precedes end of input) only decides what is pruned.
+#include "trace.h"
 #include "worker.h"
+
+#include "utap/DocumentBuilder.hpp"
+#include "utap/featurechecker.h"
+#include "utap/prettyprinter.h"
+#include "utap/property.h"
+#include "utap/typechecker.h"
+
+#include <fcntl.h>
+#include <signal.h>
+#include <unistd.h>
+
+#include <chrono>
+#include <deque>
+#include <iostream>
+#include <regex>
+#include <sstream>
+#include <unordered_set>
+
+using namespace UTAP;
+
+int utapv_lexer_start();
+void utapv_globals(std::string& out);
+const char* utapv_scan_text();
+const char* utapv_last_token_text();
+
 namespace utapv {
-json op_pm(const json&) { return json{{"harness_error", "pm not built"}}; }
-json op_block(const json&) { return json{{"harness_error", "block not built"}}; }
+
+namespace {
+
+uint64_t fnv(const std::string& s)
+{
+    uint64_t h = 1469598103934665603ull;
+    for (unsigned char c : s) {
+        h ^= c;
+        h *= 1099511628211ull;
+    }
+    return h;
 }
+
+// Everything a later callback can read from the builder, rendered canonically.
+std::string builder_state(ParserBuilder* pb, bool fine)
+{
+    std::string s;
+    if (auto* eb = dynamic_cast<ExpressionBuilder*>(pb)) {
+        SexprOpts o;
+        o.sym_types = false;
+        s += "F" + std::to_string(eb->fragments.size());
+        if (fine) {
+            for (uint32_t i = 0; i < eb->fragments.size(); ++i)
+                s += "|" + sexpr(eb->fragments.data[i], o);
+        } else if (eb->fragments.size() > 0) {
+            auto& top = eb->fragments.data.back();
+            s += top.empty() ? "|e" : std::string("|") + kind_name(top.get_kind());
+        }
+        s += " T" + std::to_string(eb->typeFragments.data.size());
+        if (fine)
+            for (auto& t : eb->typeFragments.data)
+                s += "|" + type_sexpr(t);
+        // frame chain: sizes (and names when fine)
+        std::stack<frame_t> fs = eb->frames;
+        s += " R" + std::to_string(fs.size());
+        int nth = 0;
+        while (!fs.empty()) {
+            frame_t f = fs.top();
+            fs.pop();
+            ++nth;
+            if (f == frame_t()) {
+                s += "|null";
+                continue;
+            }
+            s += "|" + std::to_string(f.get_size());
+            if (fine) {
+                // names everywhere; types for the two innermost frames and for the newest symbols of outer ones
+                // (the rest of an outer frame is the fixed prelude of the run)
+                for (uint32_t i = 0; i < f.get_size(); ++i) {
+                    s += "," + f[i].get_name();
+                    if (nth <= 2 || i + 4 >= f.get_size())
+                        s += ":" + type_sexpr(f[i].get_type());
+                }
+            }
+        }
+        s += " ct=" + std::string(eb->currentTemplate ? eb->currentTemplate->uid.get_name() : "-");
+        s += " sc=" + std::to_string(eb->scalar_count);
+        if (auto* sb = dynamic_cast<StatementBuilder*>(pb)) {
+            s += " P" + std::to_string(sb->params == frame_t() ? -1 : (int)sb->params.get_size());
+            if (fine && !(sb->params == frame_t()))
+                for (uint32_t i = 0; i < sb->params.get_size(); ++i)
+                    s += "," + sb->params[i].get_name() + ":" + type_sexpr(sb->params[i].get_type());
+            s += " B" + std::to_string(sb->blocks.size());
+            if (fine)
+                for (auto& b : sb->blocks)
+                    s += "|" + stmt_sexpr(b.get(), o);
+            s += " fl" + std::to_string(sb->fields.size()) + "/" + std::to_string(sb->labels.size());
+            s += " cf=" + std::string(sb->currentFun ? sb->currentFun->uid.get_name() : "-");
+        }
+        if (auto* db = dynamic_cast<DocumentBuilder*>(pb)) {
+            int ei = -1;
+            if (db->currentEdge && db->currentTemplate) {
+                int k = 0;
+                for (auto& e : db->currentTemplate->edges) {
+                    if (&e == db->currentEdge)
+                        ei = k;
+                    ++k;
+                }
+                if (ei < 0)
+                    ei = -2;  // points somewhere else
+            }
+            s += " ce=" + std::to_string(ei);
+            s += " cq=" + std::string(db->currentQuery ? "1" : "0") + (db->currentExpectation ? "x" : "") +
+                 (db->currentGantt ? "g" : "") + (db->currentIODecl ? "i" : "") + " pp=" +
+                 std::to_string(db->currentProcPriority);
+        }
+        // document summary
+        Document& d = eb->document;
+        s += " D:e" + std::to_string(d.get_errors().size()) + "w" + std::to_string(d.get_warnings().size());
+        s += "t" + std::to_string(d.get_templates().size());
+        for (auto& t : d.get_templates()) {
+            s += "[" + std::to_string(t.locations.size()) + "," + std::to_string(t.branchpoints.size()) + "," +
+                 std::to_string(t.edges.size()) + "," + std::to_string(t.variables.size()) + "," +
+                 std::to_string(t.functions.size()) + (t.init == symbol_t() ? "-" : "i") + "]";
+            if (fine)
+                for (auto& e : t.edges)
+                    s += "{" + sexpr(e.guard, o) + sexpr(e.sync, o) + sexpr(e.assign, o) + sexpr(e.prob, o) +
+                         std::to_string(e.select == frame_t() ? -1 : (int)e.select.get_size()) + "}";
+        }
+        s += "g" + std::to_string(d.get_globals().variables.size()) + "/" + std::to_string(d.get_globals().functions.size());
+        s += "i" + std::to_string(d.instances.size()) + "p" + std::to_string(d.get_processes().size());
+        s += "q" + std::to_string(d.get_queries().size()) + "c" + std::to_string(d.get_chan_priorities().size());
+        if (fine && !d.get_errors().empty())
+            s += "E:" + d.get_errors().back().msg;
+    } else if (auto* pp = dynamic_cast<PrettyPrinter*>(pb)) {
+        s += "PP st" + std::to_string(pp->st.size()) + " ty" + std::to_string(pp->type.size()) + " ar" +
+             std::to_string(pp->array.size()) + " fi" + std::to_string(pp->fields.size()) + " o" + std::to_string(pp->o.size()) +
+             " lv" + std::to_string(pp->level) + " s" + std::to_string(pp->select) + "g" + std::to_string(pp->guard) + "y" +
+             std::to_string(pp->sync) + "u" + std::to_string(pp->update) + "p" + std::to_string(pp->probability);
+        if (fine) {
+            for (auto& x : pp->st)
+                s += "|" + x;
+            s += "#" + pp->param + "#" + pp->urgent + "#" + pp->committed + "#" + pp->branchpoints;
+        }
+    }
+    return s;
+}
+
+struct Observer : TraceSink
+{
+    ParserBuilder* builder = nullptr;
+    bool fine = true;
+    int target_block = 0;      // (fallback) which utap_parse() call of the run is explored
+    std::string target_text;   // the text block that is explored, recognised by its content
+    bool in_target = false;
+    const std::vector<std::string>* tokens = nullptr;
+    // per run
+    int block = -1;
+    int reads = 0;
+    int shifts = 0;
+    bool eof_seen = false;     // the target block's parse reached end of input
+    bool target_done = false;
+    std::string last_stack;
+    std::string shifted;
+    std::string digest_src;    // state at the last "Reading a token" of the target block
+
+    void reset()
+    {
+        block = -1;
+        in_target = false;
+        reads = 0;
+        shifts = 0;
+        eof_seen = false;
+        target_done = false;
+        last_stack.clear();
+        shifted.clear();
+        digest_src.clear();
+    }
+    void line(const char* l) override
+    {
+        if (strncmp(l, "Starting parse", 14) == 0) {
+            ++block;
+            const char* cur = utapv_scan_text();
+            bool was = in_target;
+            in_target = !target_done && cur != nullptr && target_text == cur;
+            if (was && !in_target)
+                target_done = true;
+            return;
+        }
+        if (!in_target)
+            return;
+        if (strncmp(l, "Stack now", 9) == 0) {
+            last_stack = l + 9;
+        } else if (strncmp(l, "Reading a token", 15) == 0) {
+            ++reads;
+        } else if (strncmp(l, "Shifting token", 14) == 0) {
+            // value-carrying tokens: remember the spelling (bison's value stack is a function of these)
+            const char* t = utapv_last_token_text();
+            if (++shifts == 1)
+                t = nullptr;  // the start token that selects the sub-grammar: no text of its own
+            if (t != nullptr && (isalnum((unsigned char)t[0]) || t[0] == '_' || t[0] == '"'))
+                shifted += std::string(t).substr(0, 40) + " ";
+        } else if (strncmp(l, "Now at end of input", 19) == 0) {
+            // the observation point: the whole text is consumed, nothing has been reduced on behalf of EOF yet
+            eof_seen = true;
+            digest_src = last_stack;
+            digest_src += " L" + std::to_string(utapv_lexer_start());
+            digest_src += " S[" + shifted + "]";
+            digest_src += " " + builder_state(builder, fine);
+        }
+    }
+};
+
+Observer g_obs;
+
+// bison's trace is only wanted inside the explored block: parse_XTA announces every block through
+// add_position() (tracker.setPath) right before it calls the parser - the place to switch the trace on.
+inline void block_starts()
+{
+    const char* cur = utapv_scan_text();
+    bool target = !g_obs.target_done && !g_obs.in_target && cur != nullptr && g_obs.target_text == cur;
+    utap_debug = target ? 1 : 0;
+    if (!target && g_obs.in_target) {
+        g_obs.in_target = false;
+        g_obs.target_done = true;
+    }
+}
+
+struct PMDocumentBuilder : DocumentBuilder
+{
+    using DocumentBuilder::DocumentBuilder;
+    void add_position(uint32_t position, uint32_t offset, uint32_t line, std::shared_ptr<std::string> path) override
+    {
+        if (line == 1 && offset == 0)
+            block_starts();
+        DocumentBuilder::add_position(position, offset, line, std::move(path));
+    }
+};
+
+struct PMPrettyPrinter : PrettyPrinter
+{
+    using PrettyPrinter::PrettyPrinter;
+    void add_position(uint32_t position, uint32_t offset, uint32_t line, std::shared_ptr<std::string> path) override
+    {
+        if (line == 1 && offset == 0)
+            block_starts();
+        PrettyPrinter::add_position(position, offset, line, std::move(path));
+    }
+};
+
+struct Run
+{
+    bool died = false;
+    bool eof = false;
+    std::string exc;
+    bool nonstd = false;
+    std::string what;
+    uint64_t digest = 0;
+    std::string digest_src;
+    long us = 0;
+    size_t errors = 0;
+    std::vector<std::string> inv;
+};
+
+struct Config
+{
+    std::string mode;      // xml | xta | property | pretty-xml | block
+    std::string tpl_pre, tpl_post;
+    std::string model;     // property mode: the XML model that provides the scope
+    bool newxta = true;
+    int part = 0;          // block mode
+    std::string builder;   // block mode: expr | pretty
+    int target_block = 0;
+    bool fine = true;
+    bool invcheck = false;
+};
+
+std::string join(const std::vector<std::string>& toks)
+{
+    std::string s;
+    for (auto& t : toks) {
+        if (!s.empty())
+            s += ' ';
+        s += t;
+    }
+    return s;
+}
+
+std::string xml_escape(const std::string& s)
+{
+    std::string r;
+    for (char c : s) {
+        if (c == '&')
+            r += "&amp;";
+        else if (c == '<')
+            r += "&lt;";
+        else if (c == '>')
+            r += "&gt;";
+        else
+            r += c;
+    }
+    return r;
+}
+
+std::string xml_unescape(std::string s)
+{
+    for (auto [from, to] : {std::pair<const char*, const char*>{"&lt;", "<"}, {"&gt;", ">"}, {"&amp;", "&"}}) {
+        size_t p = 0;
+        while ((p = s.find(from, p)) != std::string::npos) {
+            s.replace(p, strlen(from), to);
+            p += 1;
+        }
+    }
+    return s;
+}
+
+Run run_once(const Config& cfg, const std::vector<std::string>& toks)
+{
+    Run r;
+    std::string text = join(toks);
+    auto t0 = std::chrono::steady_clock::now();
+    g_obs.reset();
+    g_obs.tokens = &toks;
+    g_obs.fine = cfg.fine;
+    g_obs.target_block = cfg.target_block;
+    // the lexer sees the decoded text of the block (XML modes) or the whole buffer (plain-text modes)
+    if (cfg.mode == "xml" || cfg.mode == "pretty-xml") {
+        // the decoded text of the element that contains the slot
+        size_t a = cfg.tpl_pre.rfind('>');
+        size_t b = cfg.tpl_post.find('<');
+        g_obs.target_text = xml_unescape(cfg.tpl_pre.substr(a == std::string::npos ? 0 : a + 1)) + text +
+                            xml_unescape(cfg.tpl_post.substr(0, b));
+    } else {
+        g_obs.target_text = cfg.tpl_pre + text + cfg.tpl_post;
+    }
+    json g;
+    auto doc = std::make_unique<Document>();
+    std::ostringstream sink;
+    std::unique_ptr<Document> scope;
+    auto body = [&] {
+        if (cfg.mode == "xml") {
+            std::string buf = cfg.tpl_pre + xml_escape(text) + cfg.tpl_post;
+            // the same steps as parse_XML_buffer(const char*, Document*, bool) in typechecker.cpp
+            PMDocumentBuilder b(*doc);
+            g_obs.builder = &b;
+            g_trace_sink = &g_obs;
+            int err = parse_XML_buffer(buf.c_str(), &b, cfg.newxta);
+            utap_debug = 0;
+            g_trace_sink = nullptr;
+            g_obs.builder = nullptr;
+            if (err == 0 && !doc->has_errors()) {
+                TypeChecker tc(*doc);
+                doc->accept(tc);
+                FeatureChecker fc(*doc);
+                doc->set_supported_methods(fc.get_supported_methods());
+            }
+        } else if (cfg.mode == "xta") {
+            std::string buf = cfg.tpl_pre + text + cfg.tpl_post;
+            PMDocumentBuilder b(*doc);
+            g_obs.builder = &b;
+            g_trace_sink = &g_obs;
+            parse_XTA(buf.c_str(), &b, cfg.newxta);
+            utap_debug = 0;
+            g_trace_sink = nullptr;
+            g_obs.builder = nullptr;
+            if (!doc->has_errors()) {
+                TypeChecker tc(*doc);
+                doc->accept(tc);
+                FeatureChecker fc(*doc);
+                doc->set_supported_methods(fc.get_supported_methods());
+            }
+        } else if (cfg.mode == "property") {
+            parse_XML_buffer(cfg.model.c_str(), doc.get(), true);
+            doc->clear_errors();
+            TigaPropertyBuilder b(*doc);
+            g_obs.builder = &b;
+            g_trace_sink = &g_obs;
+            utap_debug = 1;
+            std::string buf = cfg.tpl_pre + text + cfg.tpl_post;
+            parseProperty(buf.c_str(), &b);
+            utap_debug = 0;
+            g_trace_sink = nullptr;
+            g_obs.builder = nullptr;
+        } else if (cfg.mode == "pretty-xml") {
+            std::string buf = cfg.tpl_pre + xml_escape(text) + cfg.tpl_post;
+            PMPrettyPrinter b(sink);
+            g_obs.builder = &b;
+            g_trace_sink = &g_obs;
+            parse_XML_buffer(buf.c_str(), &b, cfg.newxta);
+            utap_debug = 0;
+            g_trace_sink = nullptr;
+            g_obs.builder = nullptr;
+        } else {  // block: one text block through parse_XTA(text, builder, newxta, part, xpath)
+            std::string buf = cfg.tpl_pre + text + cfg.tpl_post;
+            if (cfg.builder == "pretty") {
+                PrettyPrinter b(sink);
+                g_obs.builder = &b;
+                g_trace_sink = &g_obs;
+                utap_debug = 1;
+                parse_XTA(buf.c_str(), &b, cfg.newxta, (xta_part_t)cfg.part, "");
+                utap_debug = 0;
+            } else {
+                ExpressionBuilder b(*doc);
+                g_obs.builder = &b;
+                g_trace_sink = &g_obs;
+                utap_debug = 1;
+                parse_XTA(buf.c_str(), &b, cfg.newxta, (xta_part_t)cfg.part, "");
+                utap_debug = 0;
+            }
+            g_trace_sink = nullptr;
+            g_obs.builder = nullptr;
+        }
+    };
+    guarded(g, body);
+    utap_debug = 0;
+    g_trace_sink = nullptr;
+    g_obs.builder = nullptr;
+    if (!g["exc"].is_null()) {
+        r.exc = g["exc"].get<std::string>();
+        r.nonstd = !g.value("std", true);
+        r.what = g.value("what", "");
+    }
+    r.eof = g_obs.eof_seen;
+    r.digest_src = g_obs.digest_src;
+    r.digest = fnv(g_obs.digest_src);
+    r.errors = doc->get_errors().size();
+    if (cfg.invcheck && (cfg.mode == "xml" || cfg.mode == "xta"))
+        r.inv = invcheck(*doc, r.exc.empty() && !doc->has_errors());
+    r.us = std::chrono::duration_cast<std::chrono::microseconds>(std::chrono::steady_clock::now() - t0).count();
+    return r;
+}
+
+}  // namespace
+
+// a single run that does not come back is a hang: the process reports it and exits (the driver reads the breadcrumb)
+static void on_alarm(int)
+{
+    const char msg[] = "UTAPV-HANG: a single run exceeded its time limit\n";
+    if (write(2, msg, sizeof(msg) - 1) < 0) {}
+    _exit(124);
+}
+
+json op_pm(const json& req)
+{
+    signal(SIGALRM, on_alarm);
+    int run_limit_s = req.value("run_limit_s", 10);
+    double budget_s = req.value("budget_s", 1e9);
+    auto t_begin = std::chrono::steady_clock::now();
+    Config cfg;
+    cfg.mode = req.value("mode", "xml");
+    std::string tpl = req.value("tpl", std::string("\x01"));
+    size_t p = tpl.find('\x01');
+    cfg.tpl_pre = tpl.substr(0, p);
+    cfg.tpl_post = p == std::string::npos ? "" : tpl.substr(p + 1);
+    cfg.model = req.value("model", "");
+    cfg.newxta = req.value("newxta", true);
+    cfg.part = req.value("part", 0);
+    cfg.builder = req.value("builder", "expr");
+    cfg.target_block = req.value("target_block", 0);
+    std::string dk = req.value("digest", "fine");
+    cfg.fine = dk == "fine";
+    bool prune = dk != "none";
+    cfg.invcheck = req.value("invcheck", false);
+    int depth = req.value("depth", 2);
+    size_t max_runs = req.value("max_runs", 2000000);
+    double slow_us = req.value("slow_us", 300000.0);
+    std::vector<std::string> alphabet = req["alphabet"].get<std::vector<std::string>>();
+    std::vector<std::string> seed = req.value("seed", std::vector<std::string>{});
+    std::unordered_set<std::string> skip;
+    if (req.contains("skip"))
+        for (auto& s : req["skip"])
+            skip.insert(s.get<std::string>());
+    int crumb = -1;
+    if (req.contains("crumb"))
+        crumb = open(req["crumb"].get<std::string>().c_str(), O_CREAT | O_WRONLY, 0644);
+
+    json out;
+    json viol = json::array();
+    std::unordered_set<uint64_t> seen;
+    size_t runs = 0, transitions = 0, dead = 0, pruned = 0, skipped = 0, with_exc = 0, with_inv = 0;
+    long max_us = 0;
+    std::string slowest;
+    std::vector<size_t> level_states;
+    std::vector<std::string> samples;
+    bool truncated = false;
+
+    auto exec = [&](const std::vector<std::string>& toks, bool& keep) {
+        keep = false;
+        std::string text = join(toks);
+        if (skip.count(text)) {
+            ++skipped;
+            return;
+        }
+        if (crumb >= 0) {
+            if (pwrite(crumb, text.data(), text.size(), 0) < 0) {}
+            if (ftruncate(crumb, text.size()) < 0) {}
+        }
+        alarm(run_limit_s);
+        Run r = run_once(cfg, toks);
+        alarm(0);
+        ++runs;
+        if (r.us > max_us) {
+            max_us = r.us;
+            slowest = text;
+        }
+        if (r.nonstd && viol.size() < 50)
+            viol.push_back({{"input", text}, {"kind", "non-std-exception"}, {"detail", r.exc}});
+        if (!r.exc.empty())
+            ++with_exc;
+        if (r.us > slow_us && viol.size() < 50)
+            viol.push_back({{"input", text}, {"kind", "slow"}, {"detail", std::to_string(r.us) + "us"}});
+        if (!r.inv.empty()) {
+            ++with_inv;
+            if (viol.size() < 50)
+                viol.push_back({{"input", text}, {"kind", "invariant"}, {"detail", r.inv[0]}});
+        }
+        std::string se = take_stderr();
+        if (!se.empty() && viol.size() < 50)
+            viol.push_back({{"input", text}, {"kind", "stderr"}, {"detail", se.substr(0, 1500)}});
+        if (!r.eof) {
+            ++dead;  // the parse stopped before the end of the text: every extension behaves the same
+            return;
+        }
+        if (prune) {
+            if (!seen.insert(r.digest).second) {
+                ++pruned;
+                return;
+            }
+        }
+        if (samples.size() < 3 && toks.size() >= 2)
+            samples.push_back(text + "  =>  " + r.digest_src.substr(0, 200));
+        keep = true;
+    };
+
+    std::vector<std::vector<std::string>> frontier;
+    {
+        bool keep;
+        exec(seed, keep);
+        if (keep || seed.empty())
+            frontier.push_back(seed);
+        level_states.push_back(frontier.size());
+    }
+    for (int lv = 1; lv <= depth && !frontier.empty() && !truncated; ++lv) {
+        std::vector<std::vector<std::string>> next;
+        for (auto& st : frontier) {
+            for (auto& tok : alphabet) {
+                if (runs >= max_runs ||
+                    ((runs & 255) == 0 &&
+                     std::chrono::duration<double>(std::chrono::steady_clock::now() - t_begin).count() > budget_s)) {
+                    truncated = true;
+                    break;
+                }
+                std::vector<std::string> t = st;
+                t.push_back(tok);
+                bool keep;
+                ++transitions;
+                exec(t, keep);
+                if (keep && lv < depth)
+                    next.push_back(std::move(t));
+                else if (keep)
+                    next.push_back({});  // counted, not expanded
+            }
+            if (truncated)
+                break;
+        }
+        level_states.push_back(next.size());
+        if (lv < depth)
+            frontier = std::move(next);
+    }
+    if (crumb >= 0)
+        close(crumb);
+    out["runs"] = runs;
+    out["transitions"] = transitions;
+    out["states"] = prune ? seen.size() : runs - dead;
+    out["dead"] = dead;
+    out["pruned"] = pruned;
+    out["skipped"] = skipped;
+    out["with_exception"] = with_exc;
+    out["with_invariant_violation"] = with_inv;
+    out["level_states"] = level_states;
+    out["max_us"] = max_us;
+    out["slowest"] = slowest;
+    out["truncated"] = truncated;
+    out["violations"] = viol;
+    out["samples"] = samples;
+    return out;
+}
+
+// one text through one entry point with a chosen builder (replay / single runs)
+json op_block(const json& req)
+{
+    Config cfg;
+    cfg.mode = req.value("mode", "block");
+    std::string tpl = req.value("tpl", std::string("\x01"));
+    size_t p = tpl.find('\x01');
+    cfg.tpl_pre = tpl.substr(0, p);
+    cfg.tpl_post = p == std::string::npos ? "" : tpl.substr(p + 1);
+    cfg.model = req.value("model", "");
+    cfg.newxta = req.value("newxta", true);
+    cfg.part = req.value("part", 0);
+    cfg.builder = req.value("builder", "expr");
+    cfg.target_block = req.value("target_block", 0);
+    cfg.invcheck = req.value("invcheck", false);
+    std::vector<std::string> toks;
+    {
+        std::istringstream is(req.value("text", ""));
+        std::string t;
+        while (is >> t)
+            toks.push_back(t);
+    }
+    Run r = run_once(cfg, toks);
+    json out;
+    out["eof"] = r.eof;
+    out["exc"] = r.exc.empty() ? json(nullptr) : json(r.exc);
+    out["std"] = !r.nonstd;
+    out["what"] = r.what;
+    out["digest_src"] = r.digest_src;
+    out["us"] = r.us;
+    out["errors"] = r.errors;
+    out["inv"] = r.inv;
+    return out;
+}
+
+}  // namespace utapv
